@@ -328,6 +328,18 @@ Fixpoint origin_history (pr : params) (settings : list text) (caller : option (l
       (v :: vs, c'')
   end.
 
+(* the same, the settings in force possibly differing from check to check (pyramid.csrf_trusted_origins is read from
+   request.registry.settings when the request is checked, not when the view was derived) *)
+Fixpoint origin_history_s (pr : params) (caller : option (list text)) (allow : bool)
+         (rs : list (list text * request)) : list overdict * option (list text) :=
+  match rs with
+  | [] => ([], caller)
+  | (s, r) :: rest =>
+      let '(v, c') := check_csrf_origin_p pr s caller allow r in
+      let '(vs, c'') := origin_history_s pr c' allow rest in
+      (v :: vs, c'')
+  end.
+
 (* ------------------------------------------------------------------ configuration *)
 (* an argument of set_default_csrf_options: None = not passed (signature default) *)
 Record defaults := mkDefaults {
@@ -368,6 +380,10 @@ Definition defaults_visible (stated_first : bool) : bool :=
 (* the same configuration with the two statements in the other order *)
 Definition with_defaults_first (c : config) (b : bool) : config :=
   mkConfig (c_explicit c) (c_defaults c) (c_exception_only c) (c_storage c) (c_settings c) b.
+
+(* the same application while registry.settings holds another value of pyramid.csrf_trusted_origins *)
+Definition with_settings (c : config) (s : list text) : config :=
+  mkConfig (c_explicit c) (c_defaults c) (c_exception_only c) (c_storage c) s (c_defaults_first c).
 
 (* what csrf_view reads *)
 Record options := mkOptions {
@@ -710,6 +726,15 @@ Definition get_request (v : val) : option request :=
   | _ => None
   end.
 
+(* a request of a sequence may carry an 8th field: the value of the trusted-origins setting in force when it is checked *)
+Definition get_request_s (v : val) : option (request * option (list text)) :=
+  match v with
+  | VL [env; post; query; stored; fresh; cb; v6; so] =>
+      olet r := get_request (VL [env; post; query; stored; fresh; cb; v6]) in
+      olet so := get_opt get_texts so in Some (r, so)
+  | _ => olet r := get_request v in Some (r, None)
+  end.
+
 Definition get_defaults (v : val) : option defaults :=
   match v with
   | VL [rq; tk; hd; sf; co; an; cb] =>
@@ -806,22 +831,27 @@ Definition run_C12 (v : val) : val :=
                   VL (map (fun r => VL [vbool (spec_runs c r); vbool (wf_tokens c r); vbool (parse_defined r)]) before)])
     | VL [cfg; caller; reqs] =>
         olet c := get_config cfg in olet caller := get_opt get_texts caller in
-        olet rs := get_list_of get_request reqs in
+        olet rqs := get_list_of get_request_s reqs in
         let pr := the_params (c_storage c) in
+        (* the settings in force per request: the request's own value, else the configured one *)
+        let srs := map (fun rq => (dflt (snd rq) (c_settings c), fst rq)) rqs in
         (* arguments of the two direct calls: the harness passes the declared / documented options *)
         let o := spec_effective c in
-        let '(hist, caller') := origin_history pr (c_settings c) caller (o_allow_no_origin o) rs in
+        let '(hist, caller') := origin_history_s pr caller (o_allow_no_origin o) srs in
         Some (VL [
-          VL (map (fun rv => let '(r, ov) := rv in
-                 VL [put_outcome (view_outcome c r); vbool (callback_called c r);
+          VL (map (fun rv => let '((s, r), ov) := rv in
+                 let cs := with_settings c s in
+                 VL [put_outcome (view_outcome cs r); vbool (callback_called cs r);
                      put_tverdict (check_csrf_token_p pr (c_storage c) (o_token o) (o_header o) r);
-                     put_overdict ov]) (combine rs hist));
+                     put_overdict ov]) (combine srs hist));
           vopt vtexts caller';
-          VL (map (fun r =>
+          VL (map (fun sr =>
+                 let '(s, r) := sr in
+                 let cs := with_settings c s in
                  let so := spec_effective c in
-                 VL [vbool (spec_runs c r);
+                 VL [vbool (spec_runs cs r);
                      vbool (spec_token_ok (c_storage c) (o_token so) (o_header so) r);
-                     vbool (spec_origin_ok (c_settings c) caller (o_allow_no_origin so) r);
-                     vbool (wf_tokens c r); vbool (parse_defined r)]) rs)])
+                     vbool (spec_origin_ok s caller (o_allow_no_origin so) r);
+                     vbool (wf_tokens cs r); vbool (parse_defined r)]) srs)])
     | _ => None
     end).
